@@ -1086,7 +1086,9 @@ class AccessorEval:
             self.module = saved_mod
 
     def run_free(self, func, args, kwargs, closure=None):
-        if getattr(func, "is_generator", False) and self.__dict__.get("eager_generators") and self.__dict__.get("_in_generator") is not func:
+        if getattr(func, "is_generator", False) and (self.__dict__.get("eager_generators") or self.depth >= 1) and self.__dict__.get("_in_generator") is not func:
+            # (a generator function called from evaluated code -- depth >= 1 -- is always run to its end: its `yield`
+            # must not surface as the outcome of the caller's evaluation)
             # a generator function called for its value: run to the end now, the values in order (event order of an
             # eager run; laziness itself is a structural clause decided elsewhere)
             saved_c, saved_g = self.__dict__.get("collect_yields"), self.__dict__.get("_in_generator")
